@@ -57,6 +57,7 @@ CHECKS["C03"] = dict(
         ob("VH_C03_hostile", dict(K=2, R=1), Q, covers=["offending", "link-to-unknown", "unrequested-data", "legal-accepted"], bounds="2 hostile packets over reduced candidate lists (5 paths x 3 link names), symbolic modes"),
         ob("VH_C03_hostile", dict(K=3, DMIN=9, DEEP=10), Q, covers=["offending", "legal-accepted"], bounds="3 hostile packets {m, m/f, n} x {no link, link to an outside directory} x {dir, file, symlink} below a well-formed chain of 9..10 nested directories; the peer may keep serving after its offending packet"),
         ob("VH_C03_hostile", dict(K=3, DMIN=1, DEEP=21), T, covers=["offending", "legal-accepted"], bounds="the same below chains of every depth 1..21", max_paths=2000000),
+        ob("VH_C03_merge", {}, Q, covers=["metadata-only", "done"], bounds="merge and/or metadata-only mode (every selection), sender announces a regular file a and a hard link b to it with symbolic special bits; destination pre-populated under those names with symlinks to an outside file / directory or a stale file"),
         ob("VH_C03_hostile", dict(K=2), T, covers=["offending", "link-to-unknown", "unrequested-data", "legal-accepted"], bounds="2 hostile packets over the full candidate lists"),
         ob("VH_C03_hostile", dict(K=3, R=1), T, covers=["offending", "link-to-unknown", "unrequested-data", "legal-accepted"], bounds="3 hostile packets over reduced candidate lists", max_paths=400000),
     ],
@@ -102,6 +103,7 @@ CHECKS["C19"] = dict(
         ob("VH_C19_alloc_seq", dict(K=3), Q, covers=["done"], bounds="3 allocations, symbolic sizes"),
         ob("VH_C19_alloc_seq", dict(K=5), T, covers=["done"], bounds="5 allocations, symbolic sizes"),
         ob("VH_C19_metaonly", dict(MAXB=1), Q, covers=["requested", "done"], bounds="source [.fsutil-metadata?, d, d/f?, d2?, d2/g?], every selector, files <=1 symbolic byte, prior dest in {empty, stale file, old listing file, listing-name symlink}; model FS"),
+        ob("VH_C19_metaonly", dict(MAXB=0, MERGE=1), Q, covers=["requested", "listing-name-link-outside", "done"], bounds="merge mode, empty files: prior destination additionally with a listing-name symlink to a file outside the destination"),
         ob("VH_C19_metaonly", dict(MAXB=1, E=1), T, covers=["requested", "done"], bounds="as quick plus a further top-level entry e (file or directory)"),
         ob("VH_C19_metaonly", dict(MAXB=2), T, covers=["requested", "done"], bounds="as quick with files <=2 symbolic bytes"),
     ],
@@ -266,7 +268,7 @@ CHECKS["C15"] = dict(
     level_note="Bounds: source t/{x in file|dir(+children c, k)|symlink [, y]}, destination t/ optional with {x [, y] in absent|file|dir(+children)|symlink|fifo, unrelated z}, dst argument in {t, t/, n/m}, flags dir-contents and always-replace, symbolic file bytes. The attributes of a target directory prepared in directory-contents mode are not asserted; the repeat is asserted where it resolves to the same target. " + FS_TRUST + BASE_TRUST,
     assumptions=["names are concrete, file bytes symbolic", "wildcards: one pattern shape (prefix*) in the last component"],
     obligations=[
-        ob("VH_C15_overlay", dict(Y=0), pkg=COPY, covers=["conflict", "overlay", "idempotent"], bounds="one colliding name x, all type pairs"),
+        ob("VH_C15_overlay", dict(Y=0), pkg=COPY, covers=["conflict", "overlay", "idempotent", "top-level-obstacle"], bounds="one colliding name x, all type pairs; in directory-contents mode also a non-directory at the destination path itself"),
         ob("VH_C15_wildcard", {}, pkg=COPY, covers=["no-match", "matches", "nested-match"], bounds="wildcard source t/x* over names x1, x2, y each in {absent, file, dir with children, symlink}, optionally a matching name inside the non-matching directory, target directory absent / empty / holding a colliding file"),
         ob("VH_C15_wildcard", dict(PAT=1), pkg=COPY, covers=["no-match", "matches", "middle-wildcard"], bounds="wildcard in a middle component: t/*/k over the same trees"),
         ob("VH_C15_overlay", dict(Y=1), T, pkg=COPY, covers=["conflict", "overlay", "idempotent"], bounds="two colliding names x, y", max_paths=600000),
